@@ -123,14 +123,45 @@ def show_prog(prog):
 
 
 # ---------------------------------------------------------------------------------------- one batch
-def check_cases(ctx, cases, fails, tag, shard):
-    """cases: list of (kind, prog).  Runs implementation + Coq, compares.  Returns per-case flag
-    'the Coq model of the shipped loop loses a set here' (used to force these graphs into every order)."""
-    impl = [run_impl(p) for _, p in cases]
-    exprs = ['case_out 0 1 %s %s' % (coq_prog(p), coq_sets(r['sets'] or [])) for (_, p), r in zip(cases, impl)]
-    res, errs = coq_eval(ctx, tag, ['Zepid.Model.Dag'], exprs, shard=shard, timeout=1200)
-    if errs:
-        ctx.broken_ties.append('coq evaluation failed: ' + errs[0][1][-400:])
+def unmask(m):
+    return [i for i in range(m.bit_length()) if (m >> i) & 1]
+
+
+def check_cases(ctx, cases, fails, tag, shard, chunk=3000):
+    """cases: list of (kind, prog).  Runs implementation + Coq (pipelined: while Coq evaluates one chunk the
+    implementation runs the next), compares.  Returns per-case flag 'the Coq model of the shipped loop loses a
+    set here' (used to force these graphs into every order)."""
+    import threading
+    flags, pending = [], None
+
+    def launch(k, part):
+        impl = [run_impl(p) for _, p in part]
+        exprs = ['case_out 0 1 %s %s' % (coq_prog(p), coq_sets(r['sets'] or [])) for (_, p), r in zip(part, impl)]
+        box = {}
+        th = threading.Thread(target=lambda: box.update(out=coq_eval(ctx, '%s_%d' % (tag, k), ['Zepid.Model.Dag'], exprs,
+                                                                       shard=shard, timeout=1200)))
+        th.start()
+        return part, impl, th, box
+
+    def finish(job):
+        part, impl, th, box = job
+        th.join()
+        res, errs = box['out']
+        if errs:
+            ctx.broken_ties.append('coq evaluation failed: ' + errs[0][1][-400:])
+        flags.extend(compare(ctx, part, impl, res, fails))
+
+    for k in range(0, len(cases), chunk):
+        job = launch(k, cases[k:k + chunk])
+        if pending:
+            finish(pending)
+        pending = job
+    if pending:
+        finish(pending)
+    return flags
+
+
+def compare(ctx, cases, impl, res, fails):
     flags = []
     for (kind, prog), r, c in zip(cases, impl, res):
         ctx.evaluations += 1
@@ -138,7 +169,11 @@ def check_cases(ctx, cases, fails, tag, shard):
             flags.append(False)
             continue
         ctx.programs += 1
-        (m_trace, m_alg, m_spec, m_old, m_path, m_min, m_min_impl, m_desc, m_anc, m_ureach) = c
+        m_trace, cands, masks, m_desc, m_anc, m_ureach = c
+        sel = lambda m: [cands[i] for i in unmask(m)]   # noqa: E731
+        m_alg, m_spec, m_old, m_path, m_min, m_min_impl = [sel(m) for m in masks[:6]]
+        m_min_impl_len = masks[6]
+        m_desc, m_anc, m_ureach = [[unmask(m) for m in l] for l in (m_desc, m_anc, m_ureach)]
         nn, ne = len(r['nodes']), len(r['edges'])
         size = (nn, ne, len(prog), sum(len(o[1]) if o[0] == 'arrows' else 1 for o in prog))
         payload = {'kind': kind, 'prog': [list(o) for o in prog], 'shown': show_prog(prog), 'impl': {k: r[k] for k in ('sets', 'nodes', 'edges')}}
@@ -212,12 +247,12 @@ def check_cases(ctx, cases, fails, tag, shard):
         elif r['sets'] != (m_alg if got == fs(m_alg) else m_old) and r['sets'] != m_old:
             fail('model.enumeration-order', 'adjustment_sets listed in the order %r, model %r' % (r['sets'], m_alg))
         # minimal sets = the listed sets of smallest size (Coq minimal_of applied to what was listed) ...
-        ok_mi, mi = m_min_impl
-        if not ok_mi or fs(mi) != fs(r['minimal']) or len(r['minimal']) != len(mi):
+        mi = m_min_impl
+        if fs(mi) != fs(r['minimal']) or len(r['minimal']) != len(mi) or m_min_impl_len != len(mi):
             fail('minimal_adjustment_sets.not-the-smallest-listed', 'minimal_adjustment_sets %s, smallest of the listed sets %s' % (show(r['minimal']), show(mi)))
         # ... and equal to the minimal sets of the specification
-        if got == spec and (not m_min[0] or fs(m_min[1]) != fs(r['minimal'])):
-            fail('minimal_adjustment_sets.value', 'minimal_adjustment_sets %s, model %s' % (show(r['minimal']), show(m_min[1])))
+        if got == spec and fs(m_min) != fs(r['minimal']):
+            fail('minimal_adjustment_sets.value', 'minimal_adjustment_sets %s, model %s' % (show(r['minimal']), show(m_min)))
     return flags
 
 
@@ -248,7 +283,7 @@ def prog_for(order, vec, rng):
 def exhaustive_part(ctx, fails):
     vecs = list(itertools.product(range(3), repeat=9))
     cases = [('5node-lex', prog_for('lex', v, ctx.rng)) for v in vecs]
-    flags = check_cases(ctx, cases, fails, 'c18lex', shard=700)
+    flags = check_cases(ctx, cases, fails, 'c18lex', shard=250)
     flagged = [v for v, f in zip(vecs, flags) if f]
     ctx.extra['five_node_graphs_on_which_model_of_shipped_loop_loses_sets_lex_order'] = len(flagged)
     for order in ('rev', 'shuf', 'nx'):
@@ -260,7 +295,7 @@ def exhaustive_part(ctx, fails):
         if not ctx.quick and order != 'rev':       # two more independent shuffles of every graph
             for rep in range(2):
                 cases += [('5node-' + order, prog_for(order, v, ctx.rng)) for v in vecs]
-        check_cases(ctx, cases, fails, 'c18' + order, shard=700)
+        check_cases(ctx, cases, fails, 'c18' + order, shard=250)
 
 
 def random_program(rng):
